@@ -36,6 +36,7 @@ type lval struct {
 }
 
 type val struct {
+	strAt string // for a byte read from a string: the (str.at s i) term (character comparisons use it)
 	let *LetSpec
 	t   string
 	lv  *lval
